@@ -308,18 +308,18 @@ constructor (stratifications are built by `mkStrat`), including finalisation (`m
 model); used only to show that on reachable models `m.origNames` is exactly the set of names of
 the current compartments and stratification names are unique, so that "does not exist" in
 `IllFormed` can equivalently be read off the current compartments / stratifications. -/
-inductive Reachable : Model α → Prop
-  | mk {t0 t1 dt : α} {ws comps inf m} : mkModel t0 t1 dt ws comps inf = .ok m → Reachable m
-  | addFlow {m m' op} : Reachable m → addFlow m op = .ok m' → Reachable m'
-  | stratify {m m' sp s} : Reachable m → mkStrat sp = .ok s → stratifyWith m s = .ok m' → Reachable m'
+inductive ReachableB : Model α → Prop
+  | mk {t0 t1 dt : α} {ws comps inf m} : mkModel t0 t1 dt ws comps inf = .ok m → ReachableB m
+  | addFlow {m m' op} : ReachableB m → addFlow m op = .ok m' → ReachableB m'
+  | stratify {m m' sp s} : ReachableB m → mkStrat sp = .ok s → stratifyWith m s = .ok m' → ReachableB m'
   | setInitialPopulation {m m' isDict dist} :
-      Reachable m → setInitialPopulation m isDict dist = .ok m' → Reachable m'
-  | initPopArray {m m' arr} : Reachable m → initPopArray m arr = .ok m' → Reachable m'
+      ReachableB m → setInitialPopulation m isDict dist = .ok m' → ReachableB m'
+  | initPopArray {m m' arr} : ReachableB m → initPopArray m arr = .ok m' → ReachableB m'
   | adjustPopulationSplit {m m' den r} :
-      Reachable m → adjustPopulationSplit m den r = .ok m' → Reachable m'
-  | addRequest {m m' e} : Reachable m → addRequest m e = .ok m' → Reachable m'
-  | addComputedValue {m m' name e} : Reachable m → addComputedValue m name e = .ok m' → Reachable m'
-  | finalize {m} : Reachable m → Reachable { m with finalized := true }
+      ReachableB m → adjustPopulationSplit m den r = .ok m' → ReachableB m'
+  | addRequest {m m' e} : ReachableB m → addRequest m e = .ok m' → ReachableB m'
+  | addComputedValue {m m' name e} : ReachableB m → addComputedValue m name e = .ok m' → ReachableB m'
+  | finalize {m} : ReachableB m → ReachableB { m with finalized := true }
 
 end
 end Summer.Spec
